@@ -178,6 +178,52 @@ def part_a(ctx, pkgroot):
     ctx.sample({"user_templates": sorted(user), "builtin_templates": sorted(builtin), "class": cls.__name__, "chain": chain(cls), "resolved": exp})
 
 
+def part_a_multi(ctx, pkgroot):
+    """Several user template directories: the nearest class over the UNION of the directories decides (a directory's position never
+    beats the distance in the class chain); a name present in several directories is taken from the first of them."""
+    from nunavut.jinja.loaders import DSDLTemplateLoader
+    from nunavut.jinja.jinja2 import Environment
+    R = random.Random("c16am/%s" % ctx.seed)
+    classes = hierarchy()
+    env = Environment()
+    d = ctx.sub("am")
+    for k in range(ctx.pick(40, 400)):
+        ndirs = R.choice([2, 2, 3])
+        sets = [frozenset(R.sample(UNIVERSE, R.randint(0, 4))) for _ in range(ndirs)]
+        if k % 4 == 0:   # a farther ancestor in an earlier directory, the nearer class in a later one
+            sets[0] = sets[0] | {R.choice(["CompositeType", "SerializableType", "Any"])}
+            sets[-1] = sets[-1] | {R.choice(["StructureType", "UnionType", "ServiceType"])}
+        dirs = []
+        for i, names in enumerate(sets):
+            dd = os.path.join(d, "k%d_d%d" % (k, i))
+            write_set(dd, names, "USER%d" % i, R)
+            dirs.append(dd)
+        for order in (list(range(ndirs)), list(reversed(range(ndirs)))):
+            loader = DSDLTemplateLoader(templates_dirs=[pathlib.Path(dirs[i]) for i in order], package_name_for_templates=None)
+            union = frozenset().union(*sets)
+            for cls in R.sample(classes, min(len(classes), 12)):
+                ctx.count("evaluations")
+                ctx.count("multi_directory_lookups")
+                exp = reference(cls, union, frozenset())
+                if exp is not None:
+                    first = next(i for i in order if exp[1] in sets[i])
+                    exp = ("user%d" % first, exp[1])
+                try:
+                    got = observe(loader, env, cls)
+                except Exception as e:
+                    ctx.refute(None, "lookup raised %r" % e, dict(cls=cls.__name__, dirs=[sorted(x) for x in sets], order=order))
+                    continue
+                g = got[0] if got else None
+                if g != exp:
+                    ctx.refute(None, "with several template directories %s resolved to %s, reference %s" % (cls.__name__, g, exp),
+                               dict(cls=cls.__name__, chain=chain(cls), directories=[sorted(x) for x in sets], search_order=order, got=g, expected=exp))
+                else:
+                    ctx.count("multi_directory_lookups_agree")
+        ctx.distinct(("am", tuple(tuple(sorted(x)) for x in sets)))
+        shutil.rmtree(os.path.join(d), ignore_errors=True)
+        os.makedirs(d, exist_ok=True)
+
+
 def part_b(ctx):
     """Real language packages + user directories, through the real generator's filter on real PyDSDL objects."""
     import pydsdl
@@ -351,6 +397,7 @@ def run(ctx):
     open(os.path.join(pkgroot, "vpkg16", "templates", "__init__.py"), "w").close()
     sys.path.insert(0, pkgroot)
     part_a(ctx, pkgroot)
+    part_a_multi(ctx, pkgroot)
     types, objs = part_b(ctx)
     part_c(ctx, pkgroot)
     part_d(ctx, objs)
@@ -362,3 +409,4 @@ def run(ctx):
     ctx.require("addition_attempts", 100)
     ctx.require("fresh_names_accepted", 2)
     ctx.require("enumeration_variants", 50)
+    ctx.require("multi_directory_lookups_agree", 300)
